@@ -611,6 +611,7 @@ func (f *MemFile) Truncate(size int64) error {
 	nd.mu.Lock()
 
 	nd.truncate(size)
+	nd.removePrivs(f.vfs.User())
 	nd.mtime = time.Now().UnixNano()
 
 	nd.mu.Unlock()
@@ -687,6 +688,7 @@ func (f *MemFile) Write(b []byte) (n int, err error) {
 		n = len(b)
 	}
 
+	nd.removePrivs(f.vfs.User())
 	nd.mtime = time.Now().UnixNano()
 
 	nd.mu.Unlock()
@@ -758,6 +760,7 @@ func (f *MemFile) WriteAt(b []byte, off int64) (n int, err error) {
 
 	n = copy(nd.data[off:], b)
 
+	nd.removePrivs(f.vfs.User())
 	nd.mtime = time.Now().UnixNano()
 
 	nd.mu.Unlock()
